@@ -328,7 +328,8 @@ def gen_chars(rng, cs, n, bad_at=None):
             c = rng.randrange(32, 127)
         out.append(c)
     if bad_at is not None and n > 0:
-        bad = {CS_NUM: [47, 58, 65], CS_PRINT: [42, 59, 64, 0x80], CS_IA5: [128, 0xE4, 0x20AC], CS_VIS: [31, 127, 128, 0xE4]}.get(cs)
+        bad = {CS_NUM: [47, 58, 65, 0x130], CS_PRINT: [42, 59, 64, 0x80, 0x141], CS_IA5: [128, 0xE4, 0x20AC, 0x141],
+               CS_VIS: [31, 127, 128, 0xE4, 0x141]}.get(cs)
         if bad:
             out[bad_at % n] = rng.choice(bad)
     return out
